@@ -208,8 +208,8 @@ func c09(c *Ctx) {
 		}
 	}
 
-	nPlay := c.Size(120, 4000)
-	nSynth := c.Size(1200, 40000)
+	nPlay := c.Size(120, 40000)
+	nSynth := c.Size(1200, 400000)
 	sampled := 0
 	forEachGame(c, "c09", nPlay, 80, nSynth, func(g Game) {
 		p := engPos(g.Start.FEN())
